@@ -214,6 +214,8 @@ WF_CLAUSES = (
     'I3 no stream (or placeholder) occupies two outlet ports',
     'I4 fixed-size port list keeps its size',
     'I4 every port holds a stream or a falsy placeholder',
+    'I2 a listed placeholder whose sink is a unit is listed among that unit\'s inlets',
+    'I2 a listed placeholder whose source is a unit is listed among that unit\'s outlets',
 )
 # "a placeholder belongs to one port": with I1 (one sink, one source per object) and I3 (not twice in a list) a
 # placeholder occupies at most one inlet port and at most one outlet port, exactly like a real stream.  (A placeholder
@@ -242,6 +244,11 @@ def wf_failures(U):
                         if bad is None: bad = set()
                         bad.add(7)
                         if not isinstance(e, (REAL, MISS)): continue
+                    if e._source is not None:             # placeholder that is also an outlet: a missing connection
+                        q2 = U.outs_of.get(id(e._source))
+                        if q2 is None or e not in q2.seq._streams:
+                            if bad is None: bad = set()
+                            bad.add(9)
                 if e._sink is not unit:
                     if bad is None: bad = set()
                     bad.add(0)
@@ -256,6 +263,11 @@ def wf_failures(U):
                         if bad is None: bad = set()
                         bad.add(7)
                         if not isinstance(e, (REAL, MISS)): continue
+                    if e._sink is not None:
+                        q2 = U.ins_of.get(id(e._sink))
+                        if q2 is None or e not in q2.seq._streams:
+                            if bad is None: bad = set()
+                            bad.add(8)
                 if e._source is not unit:
                     if bad is None: bad = set()
                     bad.add(1)
@@ -416,7 +428,7 @@ def gen_ops(U, full):
                     tuples.append((x, y))
             if full:
                 for q2, e in holders:
-                    if q2 is not q: tuples.append((e,))
+                    if q2 is not q and not _has(outside, e): tuples.append((e,))
             for t in tuples:
                 newlen = n - len(inside) + len(t)
                 if q.fixed and newlen > q.size: continue          # precondition: does not exceed the fixed size
@@ -562,6 +574,9 @@ def gen_ops(U, full):
             src = s._source; snk = s._sink
             if src is None or snk is None or src is a or snk is a: continue
             qsi = U.ins_of[id(snk)]; qso = U.outs_of[id(src)]
+            # the assignments made inside must be within the stated precondition (a stream assigned to a port is not
+            # already in the same port list): the unit is not yet connected to the sink's inlets / the source's outlets
+            if any(_has(qsi.seq._streams, e) or _has(qso.seq._streams, e) for e in a_ins + a_outs): continue
             ti = {qa_i.li, qsi.li}; to = {qa_o.li, qso.li}
             variants = [((), '')]
             if full:
